@@ -373,8 +373,14 @@ def run(ctx, rep):
     # the hand-off queue between the polling thread and the workers is unbounded: the workers are its only consumers and they
     # also put() into it (re-queueing a descriptor), so a bounded queue blocks every worker in put() once enough clients are busy
     qv = K.init_field_ctor(ctx, SRV + ".ThreadPoolServer", "_active_connection_queue")
-    okq = isinstance(qv, ast.Call) and (A.call_name(qv) or "").split(".")[-1] in ("Queue", "SimpleQueue", "LifoQueue") and \
-        not qv.args and not [k for k in qv.keywords if k.arg == "maxsize"]
+    okq = isinstance(qv, ast.Call) and (A.call_name(qv) or "").split(".")[-1] in ("Queue", "SimpleQueue", "LifoQueue", "PriorityQueue") \
+        and not qv.args and not [k for k in qv.keywords if k.arg == "maxsize"]
+    qkind = (A.call_name(qv) or "").split(".")[-1] if isinstance(qv, ast.Call) else None
+    rep.ob("R16.2", "ThreadPoolServer: connections with pending data are served first come, first served (a FIFO hand-off queue)",
+           qkind in ("Queue", "SimpleQueue", "deque"), "%s()" % qkind if qkind in ("Queue", "SimpleQueue", "deque") else
+           "the hand-off queue is a `%s`: a connection a worker re-queues (more data after its batch) goes back on top and is popped "
+           "again at once, so with as many busy clients as workers every other client's descriptor stays at the bottom and is never "
+           "served" % (A.src(qv) if qv is not None else None), ctx.loc(qv) if qv is not None else fr.loc, kind="site")
     puts = [c for m in ctx.cls(SRV + ".ThreadPoolServer").methods.values() for c in A.find_calls(m.node, "self._active_connection_queue.put")]
     rep.floor("R16.2", "put() sites on the active-connection queue", len(puts), 3)
     rep.ob("R16.2", "ThreadPoolServer: the active-connection queue is unbounded (workers re-queue into it and must never block)",
